@@ -163,6 +163,40 @@ Definition enabled (r : Z) (st : state) (l : label) : bool :=
 Definition quiescent (r : Z) (st : state) : Prop :=
   enabled r st (Worker true) = false /\ enabled r st (Worker false) = false /\ spawned st = [].
 
+(* The history variables are functions of the label sequence alone (Proofs: exec_reqs, exec_cancels):
+   the k-th Sched label of the sequence creates instance k with the deadline it carries; a Cancel label is
+   logged with the clock value set by the last Tick before it. *)
+Fixpoint sched_log (n : Z) (ls : list label) : list (Z * Z) :=
+  match ls with
+  | [] => []
+  | Sched d :: t => (n + 1, d) :: sched_log (n + 1) t
+  | _ :: t => sched_log n t
+  end.
+
+Fixpoint cancel_log (nw : Z) (ls : list label) : list (Z * Z) :=
+  match ls with
+  | [] => []
+  | Cancel s :: t => (s, nw) :: cancel_log nw t
+  | Tick t' :: t => cancel_log t' t
+  | _ :: t => cancel_log nw t
+  end.
+
+(* labels that need no new Schedule call and no clock advance *)
+Definition internal (l : label) : bool :=
+  match l with Worker _ | Run | Cancel _ => true | _ => false end.
+
+Fixpoint wr_count (ls : list label) : Z :=
+  match ls with
+  | [] => 0
+  | (Worker _ | Run) :: t => 1 + wr_count t
+  | _ :: t => wr_count t
+  end.
+
+(* termination measure of the worker + action greenlets *)
+Definition mu (st : state) : Z :=
+  2 * Z.of_nat (length (q st)) + Z.of_nat (length (spawned st)) + (if ev st then 2 else 0)
+  + match pc st with Top | Sleep0 => 1 | _ => 0 end.
+
 (* ------------------------------------------------------------------------------------------------ *)
 (* Correspondence: the recorded label sequence of a run of the real TimerQueue is replayed through   *)
 (* `step`; after every label the implementation's observable state is compared.                      *)
